@@ -138,6 +138,7 @@ def handle (op : String) (args : List String) : String :=
     | _, _ => "bad-request"
   | "C02.src", _ => "unsupported: free-form source (oracle only)"
   | "C02.gen", _ => C02Sem.handle op args
+  | "C02.wt", _ => C02Sem.handle op args
   | _, _ => "unsupported-op"
 
 end RsslVerif.Driver.C02
